@@ -28,3 +28,5 @@ META = dict(
                 "histories generated (<=300 ops, <=96 handles, item sizes listed in the evidence rule)."),
     technique="runtime monitoring: reference-model oracle after every operation + ASan/UBSan + canaries",
 )
+
+CFG["rule"] += (" " + 'Additions: the comparator style is drawn per case (three-way, boolean a > b, scaled difference, INT_MIN/INT_MAX); stale aws_last_error()/errno between operations.')
